@@ -187,6 +187,10 @@ def obligations(tier):
            harness='C15_slice', func='slice_sel', timeout=170 if q else 1200, stubs=['PySlice for builtin slice']),
         Ob('slice_negative_step', 'ch', 'n 0..5, start/stop None or -6..6, step -6..-1', ['common.Slice.Slice.first/count/gen_indices/indices'],
            harness='C15_slice', func='slice_sel_neg', timeout=170 if q else 1200, stubs=['PySlice for builtin slice']),
+        Ob('slice_reuse_across_lengths', 'ch', 'one Slice object (start/stop None or -5..5, step None or -3..3) applied to n1 then to n2 != n1, both 0..5',
+           ['common.Slice.Slice.first/count/gen_indices/indices'], harness='C15_slice', func='slice_reuse', timeout=170 if q else 1200, stubs=['PySlice for builtin slice'], parts=6),
+        Ob('sample_reuse_across_lengths', 'ch', 'one Sample object (1..5) applied to n1 then to n2 != n1, both 0..8',
+           ['common.Slice.Sample.first/count/gen_indices/indices'], harness='C15_slice', func='sample_reuse', timeout=170 if q else 1200),
         Ob('sample_spread_small', 'ch', 'sample size 1..4, n 0..6 (real Sample object incl. first())', ['common.Slice.Sample.first/count/gen_indices/indices'],
            harness='C15_slice', func='sample_sel_small', timeout=170, tiers=('quick',)),
         Ob('sample_spread', 'ch', 'sample size 1..8, n 0..12', ['common.Slice.Sample.first/count/gen_indices/indices'],
